@@ -34,6 +34,23 @@ CHECKS = {
    category="model_checking", design_ref="§5 C08",
    text="All interleavings of up to 3 declarations and 2 queries over 3 (quick) / 4 (thorough) single units are enumerated by TLC; each step is executed on the real library in a process holding exactly the preceding history and its outcome compared with F(decl) from the spec; repeats must be identical; for compound units outcomes in a fresh fork and after thousands of other conversions must agree. MemoShipped must violate C08_Function in TLC.",
    note="Node units: F fully prescribed; compound units: single-valuedness only (cold vs warm)."),
+
+ "C03": dict(engine="quantities", technique="TLA+ spec (Quantities.tla) with TLC enumerating operator spelling x operand kind x unit cases and computing the prescribed dimension / Decimal-ness / left unit / rejection; every case replayed on the real library",
+   category="model_checking", design_ref="§5 C03",
+   text="Small-scope exhaustive: every operator spelling of the API (q+q, q-q, q*q, q/q, q**n, root, unary, n*q, q*n, q/n, n/q, q*u, u*q, q/u, in_unit, six comparisons in both orders) over a pool of quantities in three magnitude kinds and compound/prefixed units; the spec prescribes outcome class, dimension, Decimal-ness and the left unit; the code's result is compared for each case.",
+   note="Synthetic dyadic system S2; pool sizes in evidence; conversions the planner refuses are counted, not judged."),
+ "C06": dict(engine="quantities", technique="TLA+ spec (Quantities.tla: Phys homomorphism, exact rational arithmetic) with TLC computing the SI value / truth value of every operator case; replayed on the real library and compared through alpha (magnitude x exact size)",
+   category="model_checking", design_ref="§5 C06",
+   text="The pool contains the same physical values written in different convertible units and prefixes (decimal and binary); TLC computes Phys(op(a,b)) exactly; the code's result is mapped to its SI value with exact Fractions and compared (exact on dyadic data, 1e-12 otherwise; for + and - relative to the operands).",
+   note="Synthetic S2; offset scales excluded (C10)."),
+ "C11": dict(engine="quantities", technique="TLA+ spec (Quantities.tla: a unit carries decimal and binary prefix exponents; size = prefix factor x unit size checked as a theorem by TLC) with every prefixed case replayed on the real library",
+   category="model_checking", design_ref="§5 C11",
+   text="All cases of the Quantities enumeration whose operands carry a prefix: the result's unit must have the normal form p**n * u**n / added prefix exponents (same base, exact) and the SI value must be prefix factor times unit (1e-9 across bases, as the statement allows).",
+   note="Prefixes exercised: 10^3, 10^-3, 2^10 and their products/powers; registered SI and IEC tables are walked separately in the thorough tier (see evidence)."),
+ "C12": dict(engine="quantities", technique="TLA+ spec (Quantities.tla: order by Phys; trichotomy and symmetry checked by TLC on the model) with every ordered pair replayed on the real library: six operators in both argument orders, hash, sorted()",
+   category="model_checking", design_ref="§5 C12",
+   text="TLC prescribes the physical order (-1/0/+1) of every commensurable pair of the pool; the code's ==, !=, <, <=, >, >= in both argument orders must be exactly the truth table of that order; equal pairs must hash equally; random mixed-unit lists must sort into physical order.",
+   note="Synthetic S2; Level/Measurement symmetry is covered in the thorough tier section of the evidence when present."),
 }
 BUILT = set(CHECKS)
 m = {"version": 1, "setup_cmd": "./setup.sh",
@@ -43,6 +60,7 @@ m = {"version": 1, "setup_cmd": "./setup.sh",
    "source_commits": [], "add_only": True},
  "engines": [
    {"name": "conversions", "path": "spec/Conversions.tla spec/MC_ConvNodes.tla spec/MC_ConvShapes.tla spec/MemoShipped.tla harness/conversions.py", "serves_properties": ["C04", "C05", "C07", "C08"], "kind_free_text": "TLC enumeration + exact oracle + replay on the real library (python and python -O)"},
+   {"name": "quantities", "path": "spec/Num.tla spec/Quantities.tla spec/MC_Quantities.tla harness/quantities.py", "serves_properties": ["C03", "C06", "C11", "C12"], "kind_free_text": "TLC as exhaustive small-scope enumerator and exact-arithmetic oracle + replay on the real library"},
    {"name": "registry", "path": "spec/Registry.tla spec/MC_Registry.tla harness/registry.py harness/alpha.py", "serves_properties": ["C01", "C02", "C15"], "kind_free_text": "TLC model checking + spec->code replay of every transition (fork tree)"},
  ],
  "checks": [], "notes": "Every check: ./check <id> [--tier quick|thorough]; exit 0 held / 1 VIOLATION / 2 machinery failure. known_findings.txt lists genuine defects left unrepaired and repairs made.",
